@@ -12,8 +12,9 @@
    market / stop order that was open before it is closed with its whole amount traded, or with nothing traded for a reason
    named at the moment its turn came; with unlimited liquidity a market order is completely filled by the next bar of its
    pair unless the fill rounds to nothing or funds are lacking.
-   C04_partial: for limit orders the completeness theorem is per processed order (that every open order of the pair is
-   visited by every bar of the pair is the index theorem of C05); the monitor checks the sentence end to end. *)
+   Likewise a limit order is completely filled by a bar of its pair whose range reaches its limit, or left open and
+   untouched if the fill rounds to nothing or funds are lacking when its turn comes.  Nothing of C04 is left unproved at model
+   level; the monitor checks the completeness sentence end to end on the implementation. *)
 From Coq Require Import ZArith QArith List.
 From Basana Require Import Num.DecQ Num.DecQProofs Exchange.Model Exchange.OrderProofs
      Exchange.Structure Exchange.FeeHistory Exchange.LimitHistory Exchange.FillTimes Exchange.NoPartial Exchange.FirstBar
@@ -265,4 +266,35 @@ Example C04_history_completeness_premises_met :
   map (fun o => (is_open o, Qred (filled o))) (s_orders (fst (step c s bar))) = [(false, 5); (false, 0)].
 Proof.
   cbv zeta. split; [reflexivity|]. split; [repeat constructor; cbn; discriminate|]. vm_compute. repeat split; reflexivity.
+Qed.
+
+(* "... a limit order by the first bar whose range reaches its limit": with unlimited liquidity, every bar of its pair
+   whose range reaches the limit fills an open limit order completely -- or, if the fill rounds to nothing or funds are
+   lacking when its turn comes, leaves it open and untouched (so the first reaching bar fills it, funds permitting) *)
+Theorem C04_limit_orders_filled_by_a_reaching_bar : forall c initial ops p when b s',
+  c_liq c = InfLiq -> ops_ok (ops ++ [OBar p when b]) -> bar_ok b ->
+  let s := run c (init_st initial) ops in
+  step c s (OBar p when b) = (s', ROk) ->
+  forall j o0 lp, get_order s j = Some o0 -> is_open o0 = true -> o_kind o0 = KLimit lp ->
+  pair_eqb (o_pair o0) p = true -> reaches_limit o0 b lp ->
+  exists o', get_order s' j = Some o' /\
+    ((is_open o' = false /\ filled o' == o_amount o0) \/
+     (is_open o' = true /\ o_fb o' = o_fb o0 /\
+      ((exists l, rounds_to_nothing c l o0 b) \/ (exists s_mid, refused_for_funds c s_mid o0)))).
+Proof. exact limit_orders_filled_by_a_reaching_bar. Qed.
+Print Assumptions C04_limit_orders_filled_by_a_reaching_bar.
+
+Example C04_limit_history_premises_met :
+  let c := mkCfg [(1%positive, 2%nat); (2%positive, 2%nat)] [] None NoFee InfLiq NoLoans in
+  let p := (1%positive, 2%positive) in
+  let ops := [OBar p 60%Z (mkBar 150 150 150 150 10); OCreate (KLimit 100) Buy p 5 false false;
+              OBar p 120%Z (mkBar 140 141 120 130 10)] in
+  let b := mkBar 120 121 99 100 10 in
+  let s := run c (init_st [(2%positive, 1000)]) ops in
+  c_liq c = InfLiq /\ ops_ok (ops ++ [OBar p 180%Z b]) /\ bar_ok b /\ snd (step c s (OBar p 180%Z b)) = ROk /\
+  map (fun o => (is_open o, o_kind o, Qred (filled o))) (s_orders s) = [(true, KLimit 100, 0)] /\
+  map (fun o => (is_open o, Qred (filled o))) (s_orders (fst (step c s (OBar p 180%Z b)))) = [(false, 5)].
+Proof.
+  cbv zeta. split; [reflexivity|]. split; [repeat constructor; cbn; discriminate|].
+  split; [unfold bar_ok; cbn; repeat split; discriminate|]. vm_compute. repeat split; reflexivity.
 Qed.
